@@ -15,6 +15,7 @@
 -/
 import Bcder.Props.C05
 import Bcder.Props.C04b
+import Bcder.Props.C11b
 namespace Bcder.Props.C05b
 open Bcder Bcder.Spec Prog Bcder.Props.C02 Bcder.Props.C09 Bcder.Props.C04 Bcder.Props.C05
 
@@ -393,5 +394,35 @@ theorem choice_canonical : Canon (fun c => takeValue c C04b.choiceOp) choiceEnc 
       repeat' (first | (split at hr) | (cases hr))
       all_goals (rename_i hb; unfold bodyF at hb; simp only [runG0, Prog.contentErr] at hb)
       all_goals (repeat' (first | (split at hb) | (cases hb)))
+
+/-! ### captured values -/
+
+/-- **`capture_one` in DER is canonical against `Captured`'s encoder**: the octets it returns are the
+    octets it consumed (one complete DER value, C11b), and writing them back copies them -/
+theorem canon_captureOne (N : Nat) : Canon (fun c => captureOne c N) (fun bytes => .captured bytes .der) := by
+  intro c d lim bytes c' g' hm hr
+  obtain ⟨f, t, n, hn, _, _, hb, hg, hc⟩ := C11b.capture_one_value c N d lim bytes c' g' hr
+  have hvl : (St d lim).view.length ≤ d.length := G0.view_length_le _
+  have hbl : bytes.length = n := by rw [hb, List.length_take]; omega
+  refine ⟨bytes, d.drop n, ?_, rfl, ?_, hc, ?_, ?_⟩
+  · simp [Enc.write, capturedGuard, Bind.bind, Except.bind, Pure.pure, Except.pure]
+  · rw [hb, List.take_append_drop]
+  · rw [hg, hbl]; rfl
+  · intro l hl
+    rw [hbl]
+    have : (St d lim).view.length ≤ l := by simp [G0.view, hl, List.length_take]; omega
+    omega
+
+/-- SEQUENCE { any value, captured }: in the algebra through `DerCodec.sem`, so by `der_canonical`
+    whatever is accepted re-encodes to itself -/
+theorem derCodec_captured_sample :
+    DerCodec (C04.consD (C12.tagOf 0 16) (C04.seqD (fun c => captureOne c 8) C04.nilD))
+      (fun v => .cons (C12.tagOf 0 16) (.seq .tuple [.captured v.1 .der])) :=
+  DerCodec.cons 0 16 ⟨by omega, by omega, by omega⟩ _ _
+    (DerCodec.seqCons .tuple _ _ (fun b => .captured b .der) (fun _ => [])
+      (DerCodec.sem _ _ (canon_captureOne 8)) (DerCodec.seqNil .tuple))
+
+example : runG0 (decodeTop .der (C04.consD (C12.tagOf 0 16) (C04.seqD (fun c => captureOne c 8) C04.nilD)))
+    (St [0x30, 0x04, 0x30, 0x02, 0x05, 0x00] none) = .ok (([0x30, 0x02, 0x05, 0x00], ()), St [] none) := by rfl
 
 end Bcder.Props.C05b
